@@ -1,6 +1,6 @@
 (* C02 property theorems: statements only, each closed by [exact]. *)
 From Boltons Require Import Lib.Prelude Lib.C02_Syntax Spec.C02_Spec Model.C02_Model
-  Model.C02_PtrModel Model.C02_PtrCache Proofs.C02_PtrLemmas Proofs.C02_PtrRep Proofs.C02_PtrSim
+  Model.C02_PtrModel Model.C02_PtrCache Proofs.C02_PtrLemmas Proofs.C02_PtrRep Proofs.C02_PtrSim Check.C02_Check
   Proofs.C02_Lists Proofs.C02_Inv Proofs.C02_Heap Proofs.C02_Thms Proofs.C02_Counters Proofs.C02_Recency.
 Close Scope N_scope.
 Open Scope nat_scope.
@@ -230,3 +230,19 @@ Example C02_pointer_inhabited :
       p_flatten (ps_ring p) = [(2, 20); (3, 30)]
       /\ pr_anchor (ps_ring p) = 1 /\ pr_lookup (ps_ring p) = [(2, 2); (3, 0)]).
 Proof. vm_compute. repeat split. Qed.
+
+(* the verdict itself: for EVERY case (any class, any max_size incl. 0, callable or
+   non-callable on_miss, constructor outcome, history, observations) the `agree`
+   bit computed by Check/C02_Check.v implies the `holds` bit *)
+Theorem C02_verdict_sound : forall k, c02_agree k = true -> c02_holds k = true.
+Proof. exact verdict_sound. Qed.
+Print Assumptions C02_verdict_sound.
+
+(* after any history the cells of every cache form a well-formed ring that
+   represents the list-level state: PRel = same storage and counters + Rep (a
+   duplicate-free cycle anchor -> oldest -> ... -> newest -> anchor with consistent
+   NEXT/PREV, KEY/VALUE = the items in recency order, link table = key -> its cell) *)
+Theorem C02_pointer_inv : forall c init ops,
+  1 <= c_max c -> Forall2 PRel (prun_heap c init ops) (run_heap c init ops).
+Proof. exact prun_heap_rel. Qed.
+Print Assumptions C02_pointer_inv.
